@@ -11,53 +11,55 @@ open TV.Query TV.Bounds
 theorem C16_hull_contains (eps : Rat) (pts hv : List P) (hf : List Face) (ts : List Tri)
     (ht : trisOf hv hf = some ts) (h : hullCheck eps pts hv hf = true) :
     ∀ t ∈ ts, ∀ p ∈ pts, below eps t p = true := by
-  sorry
+  exact ((hullCheck_iff eps pts hv hf ts ht).mp h).2.1
 
 /-- **hull vertices are input points**, the surface is closed, consistently wound and encloses positive volume -/
 theorem C16_hull_valid (eps : Rat) (pts hv : List P) (hf : List Face) (ts : List Tri)
     (ht : trisOf hv hf = some ts) (h : hullCheck eps pts hv hf = true) :
     (∀ v ∈ hv, v ∈ pts) ∧ TV.Topology.isWatertight hf = true ∧
     TV.Topology.isWindingConsistent hf = true ∧ 0 < vol6 ts := by
-  sorry
+  obtain ⟨h1, _, h3, h4, h5⟩ := (hullCheck_iff eps pts hv hf ts ht).mp h
+  exact ⟨h1, h3, h4, h5⟩
 
 /-- **convexity**: the region below a face plane (within `eps`) is convex, so with the two theorems above
     every point of every segment between input points - hence their whole convex hull - is inside -/
 theorem C16_below_convex (eps : Rat) (t : Tri) (p q : P) (s : Rat) (hs0 : 0 ≤ s) (hs1 : s ≤ 1)
     (hp : below eps t p = true) (hq : below eps t q = true) :
     below eps t (lerp p q s) = true := by
-  sorry
+  exact below_lerp eps t p q s hs0 hs1 hp hq
 
 /-- **outward winding is what the checker tests**: reversing a face negates the height of every point, so a
     face wound inwards is rejected (at `eps = 0`) as soon as one input point is strictly off its plane on the
     inner side -/
 theorem C16_flip_height (a b c p : P) : height (a, c, b) p = - height (a, b, c) p := by
-  sorry
+  exact height_flip a b c p
 
 theorem C16_inward_rejected (a b c p : P) (h : height (a, b, c) p < 0) : below 0 (a, c, b) p = false := by
-  sorry
+  exact inward_rejected a b c p h
 
 /-- **axis-aligned bounds are exact**: every point is inside and each of the six bounds is attained -/
 theorem C16_aabb (pts : List P) (lo hi : P) (h : aabbCheck pts lo hi = true) :
     (∀ p ∈ pts, lo.1 ≤ p.1 ∧ lo.2.1 ≤ p.2.1 ∧ lo.2.2 ≤ p.2.2 ∧ p.1 ≤ hi.1 ∧ p.2.1 ≤ hi.2.1 ∧ p.2.2 ≤ hi.2.2) ∧
     (∃ p ∈ pts, p.1 = lo.1) ∧ (∃ p ∈ pts, p.2.1 = lo.2.1) ∧ (∃ p ∈ pts, p.2.2 = lo.2.2) ∧
     (∃ p ∈ pts, p.1 = hi.1) ∧ (∃ p ∈ pts, p.2.1 = hi.2.1) ∧ (∃ p ∈ pts, p.2.2 = hi.2.2) := by
-  sorry
+  exact (aabbCheck_iff pts lo hi).mp h
 
 /-- **oriented box contains the geometry**: the transform maps every point into the reported extents -/
 theorem C16_obb_contains (eps : Rat) (pts : List P) (T : Rigid) (ext : P) (h : obbCheck eps pts T ext = true) :
     ∀ p ∈ pts, let q := T.apply p
       absR q.1 ≤ ext.1 / 2 + eps ∧ absR q.2.1 ≤ ext.2.1 / 2 + eps ∧ absR q.2.2 ≤ ext.2.2 / 2 + eps := by
-  sorry
+  intro p hp
+  exact (inBox_iff eps ext (T.apply p)).mp (obbCheck_imp eps pts T ext h p hp)
 
 /-- an exactly orthonormal transform preserves all distances (rigid) -/
 theorem C16_rigid_exact (T : Rigid) (h : T.isExact) (p q : P) :
     dist2 (T.apply p) (T.apply q) = dist2 p q := by
-  sorry
+  exact rigid_exact T h p q
 
 /-- **bounding sphere contains every point** -/
 theorem C16_sphere_contains (eps : Rat) (pts : List P) (c : P) (r : Rat) (h : sphereCheck eps pts c r = true) :
     ∀ p ∈ pts, dist2 p c ≤ (r + eps) * (r + eps) := by
-  sorry
+  exact sphereCheck_imp eps pts c r h
 
 /-- **bounding sphere is minimal**: with an accepted certificate, every ball (any centre `c'`, squared radius
     `R2`) that contains all the points has `R2 ≥ (r - eps)²` -/
@@ -65,7 +67,7 @@ theorem C16_sphere_minimal (eps delta : Rat) (pts : List P) (c : P) (r : Rat) (w
     (h : sphereMinCheck eps delta pts c r ws qs = true) (c' : P) (R2 : Rat)
     (hall : ∀ p ∈ pts, dist2 p c' ≤ R2) :
     (r - eps) * (r - eps) ≤ R2 := by
-  sorry
+  exact sphere_minimal eps delta pts c r ws qs h c' R2 hall
 
 /-- **bounding cylinder contains every point**: `p - c` splits into a part along the axis of length at most
     `h/2 + eps` and a perpendicular part of length at most `r + eps` -/
@@ -73,6 +75,6 @@ theorem C16_cyl_contains (eps : Rat) (pts : List P) (c a : P) (r h : Rat)
     (hc : cylCheck eps pts c a r h = true) :
     ∀ p ∈ pts, ∃ (lam : Rat) (u : P), sub p c = add u (smul lam a) ∧ dot u a = 0 ∧
       lam * lam * dot a a ≤ (h / 2 + eps) * (h / 2 + eps) ∧ dot u u ≤ (r + eps) * (r + eps) := by
-  sorry
+  exact cylCheck_imp eps pts c a r h hc
 
 end TV.C16
